@@ -182,6 +182,8 @@ def run(tier, replay_file=None):
 
     # ---- (4) header policy
     header_policy(chk, ex)
+    # ---- (5) the request entry point routes at exactly the version the policy resolved
+    entry_point(chk, ex)
 
     return chk.finish('one obligation per (function, range kind(s), execution path); non-trivial = distinct obligation name')
 
@@ -245,6 +247,45 @@ def header_policy(chk, ex):
             raise Inconclusive(f'witness mismatch header/{name}: {case} -> {r}')
         chk.samples.append({'header': case['header'], 'max': case['max'], 'native': r})
     if n_ok == 0: raise Inconclusive('header policy: Ok path unreachable')
+
+
+def entry_point(chk, ex):
+    """server.rs::http_request_handle with the header policy: a handler runs only for a usable header, and it is an endpoint whose
+    range contains exactly the header's version; a missing / non-ASCII / unparsable / too-new version is a 4xx without any handler"""
+    from props import glue as G
+    from props.routerlib import Endpoint
+    saved = ex.models
+    ex.models = G.load_models() + ex.models
+    try:
+        g = G.Glue(chk, ex)
+        eps = [Endpoint(0, 'GET', '/a', 'Until'), Endpoint(1, 'GET', '/a', 'From'), Endpoint(2, 'PUT', '/a', 'FromUntil')]
+        ok_resp = lambda ex: ex.ok(httpmodel.Response(200, httpmodel.HMap(), Opaque('body', 'out')))
+        seen = set()
+        def check(chk, ex, pc, r, ctx):
+            good, v = G.resolved_version(ctx)
+            if r['calls']:
+                seen.add('handler')
+                hid = r['calls'][0][0]
+                e = next(x for x in eps if x.id == hid)
+                m = chk.prove(f'{ctx["tag"]}/handler-only-at-the-header-version', pc, z3.Or(z3.Not(good), z3.Not(zb(e.contains(v))), z3.BoolVal(len(r['calls']) != 1)), extra=ctx['assume'])
+                what = f'handler {hid} ran although the version header is unusable or names a version outside its range'
+            else:
+                seen.add('refused')
+                out = r['out']
+                st = httpmodel.status_of(ex, ex.payload(out).fields[ex.payload(out).discr][0].v) if out.discr == 1 and ex.variant_name(ex.payload(out)) == 'Dropshot' else None
+                m = chk.prove(f'{ctx["tag"]}/unusable-version-is-a-4xx-without-handler', pc,
+                              z3.And(z3.Not(good), z3.BoolVal(not (out.discr == 1 and isinstance(st, int) and 400 <= st <= 499))), extra=ctx['assume'])
+                what = f'unusable version header answered {out}'
+            if m is not None:
+                case = header_case(m, ctx['present'], ctx['ascii_ok'], ctx['parses'], ctx['hv'], ctx['vmax'])
+                nat = replay([case])[0]
+                want_ok = bool(m.eval(good, model_completion=True))
+                chk.counterexample(f'{what}: header {case["header"]!r} max {case["max"]} -> native policy result {nat}', case, (nat.get('ok') is not None) != want_ok, role='entry-point')
+        for mode in ('CancelOnDisconnect', 'Detached'):
+            g.run(eps, 'dynamic', mode, ok_resp, check, 'entry')
+        if seen != {'handler', 'refused'}: raise Inconclusive(f'vacuity: entry point outcomes {seen}')
+    finally:
+        ex.models = saved
 
 
 def header_case(m, present, ascii_ok, parses, hv, vmax):
